@@ -448,3 +448,27 @@ Proof.
   unfold all_types in Hkv. apply in_map_iff in Hkv as (c' & <- & Hc'). cbn [fst snd].
   pose proof (Hcs c' Hc') as H'. rewrite !andb_true_iff in H'. destruct H' as [[_ Hn'] Ht']. rewrite Hn', Ht'. reflexivity.
 Qed.
+
+(* ---------------------------------------------------------------- the per-file theorems in the argument order of Props/C10.v *)
+Lemma lex_multi_typescript (uc : unicode) (cfg : ts_config) (st : ts_state) (im : scoped) (pd : parsed) (text : str) (st' : ts_state) :
+  unicode_ok uc -> Proofs.C10_TSFile.c10_ts_cfg_ok cfg = true -> dom_C10 CTS pd = true -> c10_imports_ok im = true ->
+  Proofs.C10_TSFile.c10_ts_state_ok st = true ->
+  ts_generate_multi uc cfg st im pd = Ok (text, st') ->
+  good_C10_lex CTS text = true /\ Proofs.C10_TSFile.c10_ts_state_ok st' = true.
+Proof. intros Huc Hcfg Hd Hi Hs H. exact (ts_generate_multi_balanced uc Huc cfg Hcfg st im pd text st' Hd Hi Hs H). Qed.
+Lemma lex_multi_kotlin (uc : unicode) (cfg : kt_config) (c : str) (im : scoped) (pd : parsed) (text : str) :
+  Proofs.C10_KT.c10_kt_cfg_ok cfg = true -> dom_C10 CKT pd = true -> c10_crate_ok c = true -> c10_imports_ok im = true ->
+  kt_generate_multi uc cfg c im pd = Ok text -> good_C10_lex CKT text = true.
+Proof. intros Hcfg Hd Hc Hi H. exact (kt_generate_multi_balanced uc cfg Hcfg c im pd text Hd Hc Hi H). Qed.
+Lemma lex_multi_swift (uc : unicode) (cfg : sw_config) (st : sw_state) (pd : parsed) (text : str) (st' : sw_state) :
+  Proofs.C10_SWFile.c10_sw_cfg_ok cfg = true -> dom_C10 CSW pd = true ->
+  sw_generate_multi uc cfg st pd = Ok (text, st') -> good_C10_lex CSW text = true.
+Proof. intros Hcfg Hd H. exact (sw_generate_multi_balanced uc cfg Hcfg st pd text st' Hd H). Qed.
+Lemma lex_multi_go (uc : unicode) (cfg : go_config) (st : go_state) (pd : parsed) (text : str) (st' : go_state) :
+  unicode_ok uc -> Proofs.C10_GOFile.c10_go_cfg_ok cfg = true -> dom_C10 CGO pd = true -> Proofs.C10_GOFile.go_inv st ->
+  go_generate_multi uc cfg st pd = Ok (text, st') -> good_C10_lex CGO text = true /\ Proofs.C10_GOFile.go_inv st'.
+Proof. intros Huc Hcfg Hd Hs H. exact (go_generate_multi_balanced uc Huc cfg Hcfg st pd text st' Hd Hs H). Qed.
+Lemma lex_multi_python (uc : unicode) (cfg : py_config) (st : py_state) (pd : parsed) (text : str) (st' : py_state) :
+  unicode_ok uc -> Proofs.C10_PYFile.c10_py_cfg_ok cfg = true -> dom_C10 CPY pd = true -> Proofs.C10_PYFile.py_inv st ->
+  py_generate_multi uc cfg st pd = Ok (text, st') -> good_C10_lex CPY text = true /\ Proofs.C10_PYFile.py_inv st'.
+Proof. intros Huc Hcfg Hd Hs H. exact (py_generate_multi_balanced uc Huc cfg Hcfg st pd text st' Hd Hs H). Qed.
